@@ -181,3 +181,141 @@ Proof.
   intros Hb. apply CB_step. intros s a s' E. destruct (rl_node_run _ _ _ _ _ Hb E) as (Hp & cs & lv & Hc & _).
   split; [exact Hp|]. exists (PNode k cs :: lv). exact Hc.
 Qed.
+
+(* ---- recursion guard, assertions *)
+Lemma CB_rec_check : spec CB p_rec_check_and_increment.
+Proof.
+  apply CB_frame. intros s a s'. unfold p_rec_check_and_increment.
+  destruct (ptracker_check_and_increment _) as [[b t]| |]; try discriminate. intros [= <- <-]. reflexivity.
+Qed.
+Lemma CB_rec_decrement : spec CB p_rec_decrement.
+Proof.
+  apply CB_frame. intros s a s'. unfold p_rec_decrement. destruct (ptracker_decrement _); try discriminate.
+  intros [= <- <-]. reflexivity.
+Qed.
+Lemma CB_rec_guard A B (l : PM B) (body : PM A) (k : A -> PM B) :
+  spec CB l -> spec CB body -> (forall x, spec CB (k x)) -> spec CB (p_rec_guard l body k).
+Proof.
+  intros Hl Hb Hk. unfold p_rec_guard. cb_bind; [apply CB_rec_check|]. destruct a; [exact Hl|].
+  cb_bind; [exact Hb|]. cb_bind; [apply CB_rec_decrement|apply Hk].
+Qed.
+Lemma CB_debug_assert b : spec CB (p_debug_assert_advanced b).
+Proof.
+  apply CB_frame. intros s a s'. unfold p_debug_assert_advanced. destruct (_ && _); try discriminate.
+  intros [= <- <-]. reflexivity.
+Qed.
+Lemma CB_assert : spec CB g_assert_recursion_balanced.
+Proof.
+  apply CB_frame. intros s a s'. unfold g_assert_recursion_balanced. destruct (_ =? _); try discriminate.
+  intros [= <- <-]. reflexivity.
+Qed.
+
+(* ---- name *)
+Lemma CB_validate_name n : spec CB (g_validate_name n).
+Proof.
+  unfold g_validate_name. cb_bind.
+  - destruct (negb _); cbn [p_when]; [apply CB_err_and_pop|cb_ret].
+  - destruct (2 <=? blen n); [|cb_ret]. destruct n as [|c r]; [cb_ret|].
+    destruct (u8len c =? 1); [|apply CB_frame; intros s0 a0 s0'; discriminate].
+    destruct (negb _); cbn [p_when]; [apply CB_err_and_pop|cb_ret].
+Qed.
+Lemma CB_name : spec CB g_name.
+Proof.
+  unfold g_name. cb_bind; [apply CB_peek_token|]. destruct a as [token|]; [|apply CB_err].
+  destruct (tkind_eqb _ _); [|apply CB_err]. apply CB_node. cb_bind; [apply CB_validate_name|apply CB_bump].
+Qed.
+
+(* ---- ty::parse: the checkpoint, and the NON_NULL_TYPE wrapper around what was built since *)
+Lemma CB_parse_body rec : spec CB rec -> spec CB (g_parse_body rec).
+Proof.
+  intros Hrec. apply CB_step. intros s res s' E. unfold g_parse_body in E.
+  apply bind_ok in E as (cp & s1 & Ecp & E).
+  (* the checkpoint: trivia are flushed, cp = number of elements of the current node *)
+  unfold p_checkpoint_node in Ecp. apply bind_ok in Ecp as (? & s0 & E0 & Ecp).
+  destruct (rl_push_ignored_run _ _ _ E0) as (Hp0 & (lv0 & Hc0 & _) & _).
+  unfold p_bind, p_get, p_ret in Ecp. injection Ecp as <- <-. unfold pb_checkpoint in *.
+  apply bind_ok in E as (o & s1 & Ep & E). pose proof (CB_run _ _ _ _ CB_peek Ep) as [Hp1 [n1 Hc1]].
+  apply bind_ok in E as (early & s2 & Ee & E).
+  assert (Hearly : rl_bext s1 s2).
+  { destruct o as [k|].
+    - destruct k;
+        try (apply bind_ok in Ee as (t & s3 & E3 & Ee); apply bind_ok in Ee as (? & s4 & E4 & Ee);
+             unfold p_ret in Ee; injection Ee as _ <-;
+             apply (rl_bext_trans _ _ _ (CB_run _ _ _ _ CB_pop E3)); apply rl_bext_same;
+             unfold p_ghost_dropped, p_modify in E4; injection E4 as _ <-; reflexivity).
+      + (* [ *)
+        revert Ee. apply CB_run. apply CB_node. cb_bind; [apply CB_bump|].
+        apply CB_rec_guard; [cb_bind; [apply CB_limit_err|cb_ret]|exact Hrec|intros result].
+        cb_bind; [destruct result as [|[tok|]]; [cb_ret|apply CB_err_at_token|cb_ret]|].
+        cb_bind; [apply CB_expect|cb_ret].
+      + (* Name *)
+        revert Ee. apply CB_run. cb_bind; [|cb_ret]. apply CB_node. apply CB_node.
+        cb_bind; [apply CB_pop|]. cb_bind; [apply CB_validate_name|apply CB_push_token].
+    - unfold p_ret in Ee. injection Ee as _ <-. apply rl_bext_refl. }
+  destruct early as [r|].
+  { unfold p_ret in E. injection E as _ <-.
+    eapply rl_bext_trans; [apply (CB_run _ _ _ _ CB_push_ignored E0)|].
+    eapply rl_bext_trans; [split; [exact Hp1|exists n1; exact Hc1]|exact Hearly]. }
+  (* the tail *)
+  apply bind_ok in E as (? & s3 & E3 & E). apply rl_skip_ignored_builder in E3.
+  apply bind_ok in E as (b & s4 & E4 & E).
+  assert (Hb4 : ps_builder s4 = ps_builder s3).
+  { unfold g_peek_is in E4. apply bind_ok in E4 as (o4 & s5 & E5 & E4). unfold p_ret in E4. injection E4 as _ <-.
+    destruct (CB_run _ _ _ _ CB_peek E5) as [_ _].
+    unfold p_peek in E5. apply bind_ok in E5 as (o5 & s6 & E6 & E5). unfold p_ret in E5. injection E5 as _ <-.
+    unfold p_peek_token in E6. destruct (ps_cur s3).
+    - injection E6 as _ <-. reflexivity.
+    - destruct (p_next_token_loop _ _) as [o7 s7] eqn:E7. injection E6 as _ <-. cbn.
+      eapply rl_next_token_loop_builder; eauto. }
+  apply bind_ok in E as (? & s5 & E5 & E). apply bind_ok in E as (? & s6 & E6 & E). unfold p_ret in E.
+  injection E as _ <-. apply rl_skip_ignored_builder in E6.
+  destruct Hearly as [Hp2 [n2 Hc2]].
+  (* the state before the optional wrapper: everything built since the checkpoint sits on top of it *)
+  assert (Hbase : pb_parents (ps_builder s4) = pb_parents (ps_builder s) /\
+                  pb_children (ps_builder s4) = (n2 ++ n1) ++ (lv0 ++ pb_children (ps_builder s))).
+  { rewrite Hb4, E3. split; [congruence|]. rewrite Hc2. rewrite Hc1. rewrite Hc0. rewrite app_assoc. reflexivity. }
+  destruct Hbase as [Hpb Hcb].
+  unfold rl_bext. rewrite E6. destruct b; cbn [p_when] in E5.
+  - apply bind_ok in E5 as (? & s7 & E7 & E5). apply bind_ok in E5 as (? & s8 & E8 & E9).
+    unfold p_wrap_node, p_lift_b in E7. destruct (pb_start_node_at _ _ _) as [b7| |] eqn:Ew; try discriminate.
+    injection E7 as _ <-.
+    assert (Hb7 : pb_parents b7 = (SK_NON_NULL_TYPE, length (lv0 ++ pb_children (ps_builder s))) :: pb_parents (ps_builder s4) /\
+                  pb_children b7 = pb_children (ps_builder s4)).
+    { unfold pb_start_node_at in Ew. rewrite Hc0 in Ew. destruct (Nat.ltb _ _); [discriminate|].
+      destruct (pb_parents (ps_builder s4)) as [|[k' fc] ps'].
+      - injection Ew as <-. cbn. auto.
+      - destruct (Nat.ltb _ _); [discriminate|]. injection Ew as <-. cbn. auto. }
+    destruct Hb7 as [Hp7 Hc7].
+    destruct (CB_run _ _ _ _ (CB_eat SK_BANG) E8) as [Hp8 [n8 Hc8]]. cbn [ps_builder ps_set_builder] in Hp8, Hc8.
+    unfold p_finish_node, p_lift_b in E9. destruct (pb_finish_node (ps_builder s8)) as [b9| |] eqn:Efn; try discriminate.
+    injection E9 as _ <-. cbn [ps_builder ps_set_builder].
+    unfold pb_finish_node in Efn. rewrite Hp8, Hp7, Hc8, Hc7, Hcb in Efn.
+    destruct (Nat.ltb _ _) eqn:Hlt; [discriminate|]. injection Efn as <-. cbn [pb_parents pb_children].
+    split; [exact Hpb|].
+    rewrite app_assoc, app_length, Nat.add_sub, rl_firstn_app_exact, rl_skipn_app_exact.
+    eexists (_ :: lv0). reflexivity.
+  - unfold p_ret in E5. injection E5 as _ <-. split; [exact Hpb|]. rewrite Hcb. rewrite app_assoc. eauto.
+Qed.
+
+Theorem CB_ok : pcfg_ok CB.
+Proof.
+  constructor.
+  - exact CB_rel.
+  - exact I.
+  - exact CB_peek_token.
+  - exact CB_skip_ignored.
+  - exact CB_push_ignored.
+  - exact CB_bump.
+  - exact CB_err.
+  - exact CB_err_at_token.
+  - exact CB_err_at_token.
+  - exact CB_limit_err.
+  - exact CB_err_and_pop.
+  - exact CB_expect.
+  - exact CB_node.
+  - exact CB_rec_guard.
+  - exact CB_rec_guard.
+  - exact CB_debug_assert.
+  - exact CB_name.
+  - exact CB_parse_body.
+Qed.
